@@ -316,7 +316,8 @@ def process_val_weights(vals_and_weights, npartitions, dtype_info):
     """
     dtype, info = dtype_info
 
-    if not vals_and_weights:
+    # no values at all, e.g. a column that holds only nulls
+    if not vals_and_weights or len(vals_and_weights[0]) == 0:
         try:
             return np.array(None, dtype=dtype)
         except Exception:
